@@ -18,7 +18,7 @@ META = {
     "trusted": "lxml / libxml2 (run natively); the structural snapshot; z3 + BV proxies for the decoding comparison; every configuration re-run "
                "in a separate process on the unpatched library (XML digest, outcome and comparison must agree)",
     "bounds": {"quick": {"subjects": {k: docgen.dims_product(v[0]) for k, v in docgen.SUBJECTS.items() if k != "container"}, "strides (quick)": "container 13, boolean-time 5, integer 5, float 7, string 5 (coprime with all dimension sizes; phase = VERIF_SEED)",
-                         "templates": ["T2", "T4", "T6", "JPSS"]},
+                         "templates": ["T2", "T4", "O|T4 (ContainerSet in reverse order)", "T6", "JPSS"]},
                "thorough": {"subjects": {k: docgen.dims_product(v[0]) for k, v in docgen.SUBJECTS.items()}, "templates": "all + bundled + a C07 family slice"}},
     "stubs": ["lxml not stubbed"],
     "outside_claim": ["definitions outside the configuration space / template family", "XML comments, processing instructions, foreign attributes (not represented)",
@@ -48,7 +48,7 @@ def jobs(tier):
     for s, (dims, _) in docgen.SUBJECTS.items():
         out.append({"name": f"obj-{s}", "h": "roundtrip", "params": {"subject": s, "stride": stride.get(s, 1), "phase": SEED}, "split": 32, "chunk": 40,
                     "max_paths": 400000})
-    tpls = ["T2", "T4", "T6", "JPSS"] if tier == "quick" else ["T1", "T2", "T3", "T4", "T5", "T6", "JPSS", "JPSS_CONTRIVED", "S|UTF-16|term|lookup|3",
+    tpls = ["T2", "T4", "O|T4", "T6", "JPSS"] if tier == "quick" else ["T1", "T2", "T3", "T4", "O|T4", "O|T3", "O|JPSS_CONTRIVED", "T5", "T6", "JPSS", "JPSS_CONTRIVED", "S|UTF-16|term|lookup|3",
                                                                            "S|UTF-8|lead8|ref-raw-adj|0", "B|ref-raw-adj|5", "B|lookup|0"]
     for t in tpls:
         out.append({"name": f"xml-{t}", "h": "roundtrip", "params": {"template": t}, "split": 16, "chunk": 30, "max_paths": 100000})
